@@ -178,6 +178,12 @@ func genClock(repo, out string) error {
 				case *ast.CallExpr:
 					if c := clockCall(t); c != "" {
 						clock = append(clock, fmt.Sprintf("(%s, %s, %s, %s)", coqString(n), coqString(funcName(fd)), coqString(c), coqString("statement")))
+					} else if localZoneCall(t) {
+						clock = append(clock, fmt.Sprintf("(%s, %s, %s, %s)", coqString(n), coqString(funcName(fd)), coqString(".Local()"), coqString("statement")))
+					}
+				case *ast.SelectorExpr:
+					if id, ok := t.X.(*ast.Ident); ok && id.Name == "time" && t.Sel.Name == "Local" {
+						clock = append(clock, fmt.Sprintf("(%s, %s, %s, %s)", coqString(n), coqString(funcName(fd)), coqString("time.Local"), coqString("statement")))
 					}
 				case *ast.RangeStmt:
 					over := false
@@ -216,8 +222,24 @@ func clockCall(ce *ast.CallExpr) string {
 	if id.Name == "time" && (se.Sel.Name == "Now" || se.Sel.Name == "Since" || se.Sel.Name == "Until") {
 		return "time." + se.Sel.Name
 	}
+	// values that depend on the process environment (local time zone, environment variables, host)
+	if id.Name == "time" && (se.Sel.Name == "Unix" || se.Sel.Name == "UnixMilli" || se.Sel.Name == "UnixMicro" || se.Sel.Name == "LoadLocation") {
+		return "time." + se.Sel.Name
+	}
+	if id.Name == "os" && (se.Sel.Name == "Getenv" || se.Sel.Name == "LookupEnv" || se.Sel.Name == "Environ" || se.Sel.Name == "Hostname" || se.Sel.Name == "Getpid" || se.Sel.Name == "Getwd") {
+		return "os." + se.Sel.Name
+	}
+	if id.Name == "runtime" && (se.Sel.Name == "NumCPU" || se.Sel.Name == "NumGoroutine" || se.Sel.Name == "GOMAXPROCS") {
+		return "runtime." + se.Sel.Name
+	}
 	if id.Name == "rand" {
 		return "rand." + se.Sel.Name
 	}
 	return ""
+}
+
+// localZoneCall: x.Local() on any expression (a time converted to the process-local zone)
+func localZoneCall(ce *ast.CallExpr) bool {
+	se, ok := ce.Fun.(*ast.SelectorExpr)
+	return ok && se.Sel.Name == "Local" && len(ce.Args) == 0
 }
